@@ -244,6 +244,9 @@ def check(prog, rep):
     rep.guarded(rule_scan_uses_own_move_set, prog, rep)
     rep.guarded(rule_reference_distance_is_shortest, prog, rep)
     rep.guarded(rule_gap_is_loud, prog, rep, "R8")
+    from . import shared as _shared
+    rep.guarded(_shared.rule_decoration_columns_unused, prog, rep, "R9", "input atoms are removed or moved for reasons of names, bonds and geometry only: occupancy and temperature factor never decide it",
+                ("remove_atom", "set_dihedral_angle", "rotate_tetrahedral"), (), 1, "removing or moving an input atom")
     flip_twins(prog, r1, t, model, backbone, rank, moved_names)
 
     # ------------------------------------------------------------------ R2
